@@ -79,6 +79,8 @@ func directedQuerySide(c *ctx, r Rng, which string) {
 	case "C20":
 		dirTerminalStable(c, r)
 		dirStoppedEngineComplete(c, r)
+		dirCloseWithBackedUpPipeline(c, r)
+		dirFaultAtEveryStoreCall(c, r)
 	case "C21":
 		dirReadFailsAfterCancel(c, r)
 		dirCloseWithBackedUpPipeline(c, r)
@@ -88,10 +90,12 @@ func directedQuerySide(c *ctx, r Rng, which string) {
 	case "C23":
 		dirCorruptFilterSection(c, r)
 		dirReversedSectionsReadFault(c, r)
+		dirRowFromAbandonedScan(c, r)
 	case "C24":
 		dirBoundaryPrefilters(c, r)
 		dirMixedSections(c, r)
 		dirRegexGuard(c, r)
+		dirPartialFilterSets(c, r)
 	}
 }
 
@@ -487,12 +491,15 @@ func dirBoundaryPrefilters(c *ctx, r Rng) {
 				}
 			}
 		}
-		for qi := 0; qi < 10; qi++ {
+		for qi := 0; qi < 24; qi++ {
 			v := pick(r, bounds)
 			if v == math.MinInt64 || v == math.MaxInt64 {
 				v = 1000
 			}
-			cond := pick(r, []bs.NumericCondition{bs.NumericLessThan(v), bs.NumericGreaterThan(v), bs.NumericLessThanEqual(v - 1), bs.NumericGreaterThanEqual(v + 1), bs.NumericBetween(v+1, v+5), bs.NumericEquals(v), bs.NumericNotEquals(v)})
+			cond := pick(r, []bs.NumericCondition{bs.NumericLessThan(v), bs.NumericGreaterThan(v), bs.NumericLessThanEqual(v - 1), bs.NumericGreaterThanEqual(v + 1), bs.NumericBetween(v+1, v+5), bs.NumericEquals(v), bs.NumericNotEquals(v),
+				// value lists around a range without touching it / touching exactly one end; complements
+				bs.NumericIn(v-1, v+31), bs.NumericIn(v-1, v+1), bs.NumericIn(v+1, v+9), bs.NumericIn(v-7, v, v+100), bs.NumericIn(), bs.NumericNotIn(v), bs.NumericNotIn(v, v+10),
+				bs.NumericNotBetween(v, v+10), bs.NumericNotBetween(v+1, v+9), bs.NumericNotBetween(v-1, v+31), bs.NumericBetween(v+5, v+1)})
 			q := bs.NewQuery().MatchPrefilter(bs.MinMax("k1", cond)).Build()
 			if r.Chance(0.5) {
 				q = bs.NewQuery().Token("needle").MatchPrefilter(bs.MinMax("k1", cond)).Build()
@@ -740,6 +747,15 @@ func dirReversedSectionsReadFault(c *ctx, r Rng) {
 			for _, b := range st.BlockStats {
 				listed[b.BlockOffset]++
 			}
+			for off, n := range listed {
+				if n > 1 {
+					c.r.Add(Finding{Kind: "violation", Check: "block-listed-twice", Detail: fmt.Sprintf("BlockStats lists block @%d %d times (%d entries for the file's %d blocks; store read #%d failed; Err=%s)", off, n, len(st.BlockStats), len(md.DataBlocks), k, errStr(e)), Replay: replay})
+					break
+				}
+			}
+			if st.BlocksProcessed+st.BlocksSkipped != len(st.BlockStats) {
+				c.r.Add(Finding{Kind: "violation", Check: "totals-vs-blocks", Detail: fmt.Sprintf("BlocksProcessed %d + BlocksSkipped %d differs from the %d BlockStats entries", st.BlocksProcessed, st.BlocksSkipped, len(st.BlockStats)), Replay: replay})
+			}
 			if len(listed) != 0 && len(listed) != len(md.DataBlocks) {
 				c.r.Add(Finding{Kind: "violation", Check: "file-partially-listed", Detail: fmt.Sprintf("BlockStats lists %d of the file's %d blocks (store read #%d failed; Err=%s)", len(listed), len(md.DataBlocks), k, errStr(e)), Replay: replay})
 			}
@@ -752,6 +768,161 @@ func dirReversedSectionsReadFault(c *ctx, r Rng) {
 			if k == 0 && (e != nil || len(rows) != 8) {
 				c.r.Add(Finding{Kind: "disagreement", Check: "reversed-sections-baseline", Detail: fmt.Sprintf("fault-free query over the re-laid-out file returned %d rows, err %v", len(rows), e), Replay: replay})
 			}
+		}
+	}
+}
+
+// dirFaultAtEveryStoreCall (C20): for queries with and without bloom / regex conditions, the k-th OpenFile and
+// the k-th Read fail, for every k the query reaches: the filter pass opens and reads files too. A failure that
+// was reached in a query that was neither cancelled nor closed must be reported by Err, and Err must not change.
+func dirFaultAtEveryStoreCall(c *ctx, r Rng) {
+	env, total := dirPop(pick(r, []int{1, 4}), 3, 6, 2)
+	queries := []*bs.Query{{}, bs.NewQuery().Token("needle").Build(), bs.NewQuery().Field("w").Build(), bs.NewQuery().FieldToken("w", "needle").Build(), bs.NewQuery().FieldRegex("w", "^need").Build()}
+	for qi, q := range queries {
+		for _, op := range []string{"open", "read"} {
+			for k := 1; k <= 14; k++ {
+				eng := freshOver(env, "never")
+				env.Data.ResetLog()
+				env.Data.SetFaults([]string{op}, k)
+				res, err := eng.Query(context.Background(), q)
+				if err != nil {
+					env.Data.ClearFaults()
+					continue
+				}
+				rows, ok := drainWatch(res, 10*time.Second)
+				e1 := res.Err()
+				res.Close()
+				e2 := res.Err()
+				hit := injectedFailure(env.Data.Log(), op)
+				env.Data.ClearFaults()
+				replay := map[string]any{"query_index": qi, "query": q, "failing_op": op, "failing_call": k, "reached": hit, "rows": len(rows), "stored_rows": total, "err": errStr(e1)}
+				c.r.Case(hit, fmt.Sprint("fault-at-every-call", qi, op, k))
+				c.r.Hit("directed.fault-at-every-call." + b2s(hit))
+				if !ok {
+					c.r.Add(Finding{Kind: "violation", Check: "next-never-false", Detail: "Next did not return false within 10s", Replay: replay})
+					continue
+				}
+				if hit && e1 == nil {
+					c.r.Add(Finding{Kind: "violation", Check: "failure-not-reported", Detail: fmt.Sprintf("%s call #%d of the query failed (injected), the query was neither cancelled nor closed early, %d of %d rows were returned, but Err() is nil", op, k, len(rows), total), Replay: replay})
+				}
+				if !hit && (e1 != nil || len(rows) != total) {
+					c.r.Add(Finding{Kind: "violation", Check: "spurious-error", Detail: fmt.Sprintf("no store call failed, but Err() is %s and %d of %d rows were returned", errStr(e1), len(rows), total), Replay: replay})
+				}
+				if errStr(e1) != errStr(e2) {
+					c.r.Add(Finding{Kind: "violation", Check: "terminal-state-changed", Detail: fmt.Sprintf("Err changed after Close: %q -> %q", errStr(e1), errStr(e2)), Replay: replay})
+				}
+			}
+		}
+	}
+}
+
+// dirRowFromAbandonedScan (C23): one block with far more matching rows than the cursor buffers; the consumer
+// takes a few rows and then closes or cancels while the block's scan is parked on the full row buffer. Every
+// block that contained a returned row must be listed as processed, with at least the returned rows counted.
+func dirRowFromAbandonedScan(c *ctx, r Rng) {
+	for i := 0; i < 6*c.scale; i++ {
+		env, _ := dirPop(pick(r, []int{1, 2}), 1+i%2, 1500, 1)
+		eng := freshOver(env, "never")
+		ctx, cancel := context.WithCancel(context.Background())
+		q := pick(r, []*bs.Query{{}, bs.NewQuery().Token("needle").Build()})
+		res, err := eng.Query(ctx, q)
+		if err != nil {
+			cancel()
+			continue
+		}
+		take := 1 + r.IntN(70)
+		got := 0
+		for got < take && res.Next() {
+			got++
+		}
+		useCancel := i%3 == 2
+		if useCancel {
+			cancel()
+			for res.Next() {
+				got++
+			}
+		}
+		res.Close()
+		cancel()
+		st := res.Stats()
+		replay := map[string]any{"files": 1 + i%2, "rows_per_block": 1500, "rows_taken": got, "terminated_by": map[bool]string{true: "cancel", false: "Close"}[useCancel], "block_stats": len(st.BlockStats), "rows_matched": st.RowsMatched}
+		c.r.Case(true, fmt.Sprint("abandoned-scan", i, take))
+		c.r.Hit("directed.abandoned-scan")
+		processed := 0
+		for _, b := range st.BlockStats {
+			if !b.BloomFilterSkipped {
+				processed++
+			}
+		}
+		if got > 0 && processed == 0 {
+			c.r.Add(Finding{Kind: "violation", Check: "returned-row-block-unlisted", Detail: fmt.Sprintf("%d rows were returned before the query was ended, but Stats lists no processed block (BlockStats has %d entries, RowsMatched=%d)", got, len(st.BlockStats), st.RowsMatched), Replay: replay})
+		}
+	}
+}
+
+// dirPartialFilterSets (C24): the format's presence flags allow a filter set that carries only some of the three
+// filters (a MetaStore keeping a slimmed catalogue, an external writer). The MetaStore's copy of every file
+// loses one or two of its file-level filters; a condition may then be ruled out only by the filter of its own
+// kind, and an absent filter rules out nothing - but the filters that ARE present still prune.
+func dirPartialFilterSets(c *ctx, r Rng) {
+	for variant := 0; variant < 6; variant++ {
+		cfg := bs.DefaultBloomSearchEngineConfig()
+		cfg.MaxBufferedTime = time.Hour
+		cfg.RowDataCompression = bs.CompressionNone
+		cfg.MaxQueryConcurrency = pick(r, []int{1, 4})
+		h := &History{Env: NewEnv(cfg), TM: tokModes[0], Rows: map[int]*StoredRow{}}
+		for f := 0; f < 4; f++ {
+			var rows []map[string]any
+			for j := 0; j < 3; j++ {
+				h.nextID++
+				rows = append(rows, map[string]any{"_id": h.nextID, "w": fmt.Sprintf("tok%d", f), fmt.Sprintf("only%d", f): "x"})
+			}
+			h.Env.IngestWait(rows)
+		}
+		h.Env.Stop()
+		files, _ := AllFiles(h.Env.Meta)
+		for _, f := range files {
+			md := f.Metadata
+			switch variant {
+			case 0:
+				md.BloomFilters.FieldTokenBloomFilter = nil
+			case 1:
+				md.BloomFilters.TokenBloomFilter = nil
+			case 2:
+				md.BloomFilters.FieldBloomFilter = nil
+			case 3:
+				md.BloomFilters.FieldBloomFilter, md.BloomFilters.FieldTokenBloomFilter = nil, nil
+			case 4:
+				md.BloomFilters.TokenBloomFilter, md.BloomFilters.FieldTokenBloomFilter = nil, nil
+			case 5:
+				md.BloomFilters = bs.BloomFilters{}
+			}
+			h.Env.Meta.Update(context.Background(), []bs.WriteOperation{{FileMetadata: &md, FilePointerBytes: f.PointerBytes}}, nil)
+		}
+		layout, err := h.Layout()
+		if err != nil {
+			continue
+		}
+		blockOf := map[int]string{}
+		for _, f := range layout {
+			for _, b := range f.Blocks {
+				for _, id := range b.RowIDs {
+					blockOf[id] = fmt.Sprint(f.Ptr, "@", b.Meta.RowDataOffset)
+				}
+			}
+		}
+		queries := []*bs.Query{
+			bs.NewQuery().Token("tok1").Build(), bs.NewQuery().Field("only2").Build(), bs.NewQuery().FieldToken("w", "tok3").Build(),
+			bs.NewQuery().Field("only0").Token("tok0").Build(), bs.NewQuery().Match(bs.Or(bs.Token("tok1"), bs.Token("tok2"))).Build(),
+			bs.NewQuery().Match(bs.Token("absent")).Build(), bs.NewQuery().FieldRegex("only1", "^x").Build(),
+		}
+		for qi, q := range queries {
+			sc := qScenario{CancelAt: -1, CloseAt: -1, StallAt: -1, IterErr: -1, Engine: "never"}
+			out := runQueryScenario(h, q, sc)
+			replay := map[string]any{"query": q, "file_level_filters_dropped_variant": variant, "rows": len(out.rows), "err": errStr(out.err1)}
+			c.r.Case(true, fmt.Sprint("partial-filter-set", variant, qi))
+			c.r.Hit("directed.partial-filter-set")
+			checkStatsAndReads(c, h, layout, q, sc, out, blockOf, "C24", replay)
 		}
 	}
 }
